@@ -1,6 +1,7 @@
 import SSVerif.Proofs.Search
 import SSVerif.Proofs.SearchHmm
 import SSVerif.Proofs.SearchLex
+import SSVerif.Proofs.SearchLexEnd
 /-!
 # C01, growth stage (M10) — the token-passing search always produces a well-formed history table
 
@@ -112,6 +113,16 @@ roots of `root[d]` are pnodes of state `d`, children belong to the state of thei
 word arc (`wid ≥ 0`) leaving the state it belongs to. -/
 theorem C01_build_lexTreeOK (li : LexIn) (g : Fsg) (hsil : li.sil < li.nCi) : LexTreeOK (buildLexTree li g) g :=
   build_lexTreeOK li g hsil
+
+/-- **C01, growth: every sibling chain of the constructed lextree ends.**  The root chain of every state and the
+child chain of every non-leaf pnode reach NULL within the number of pnodes: the loops
+`for (root = root[d]; root; root = root->sibling)` of `fsg_search_word_trans` and
+`for (child = succ; child; child = child->sibling)` of `fsg_search_pnode_trans` terminate, and the model's
+`roots`/`children` (which carry that number as fuel) are the complete loops.  (Proof: a rank that strictly
+decreases along `sibling` is maintained through every allocation and every "link to the end of the sibling
+chain"; distinct ranks + pigeonhole bound the length.) -/
+theorem C01_build_chains_end (li : LexIn) (g : Fsg) (hsil : li.sil < li.nCi) : (buildLexTree li g).chainsEndB = true :=
+  build_chainsEnd li g hsil
 
 /-- **C01, growth, composed: over the lextree the code builds, every reachable state of the search has a
 well-formed history table** — no per-lextree check left in the chain of theorems. -/
